@@ -128,13 +128,25 @@ TagIndexShift(r) ==
 \* WitnessOrder: the node refused a designation transaction of the leader for an invalid witness, and the witness needs
 \* >= 2 remote signatures (they are appended in map iteration order, notary.go:478-491)
 TagWitnessOrder(r) == MajOf(r.n) - 1 >= 2 /\ r.mem[1].badDesignate > 0
+\* DesignationNotResent: the leader's designation transaction was acknowledged but never pooled; the shared data and
+\* enough signature records are published, yet the role is not designated (notary.go:463-470: triedDesignateRoleTx is
+\* never reset and the wrong monitor is consulted, so the leader re-creates the shared data on every tick instead of
+\* sending the transaction again)
+TagDesignationNotResent(r) ==
+  /\ r.n > 1 /\ Len(r.obs.notary) < r.n /\ r.mem[1].lost > 0
+  /\ "tx:designate" \in DOMAIN r.mem[1].sent
+  /\ \E b \in BootOf(r.obs) : b.idx = -1 /\ b.st = "rec"
+  /\ Cardinality({b \in BootOf(r.obs) : b.idx >= 1 /\ b.st = "rec"}) >= MajOf(r.n) - 1
 Tags(r) == (IF TagIndexShift(r) THEN {"NotaryIndexShift"} ELSE {}) \cup (IF TagWitnessOrder(r) THEN {"WitnessOrder"} ELSE {})
+           \cup (IF TagDesignationNotResent(r) THEN {"DesignationNotResent"} ELSE {})
 
 Zero4(d) == d.deploy = 0 /\ d.update = 0 /\ d.register = 0 /\ d.designate = 0
 
 JudgeE2E(r) ==
   LET p        == P(r)
-      progress == st.abs # Abs(r) \/ r.fw > 0
+      \* refusals for lack of GAS count as (pending) progress only while the first deployment is being saved for out of
+      \* the block rewards, i.e. before the NNS contract exists
+      progress == st.abs # Abs(r) \/ (r.fw > 0 /\ r.obs.contracts = <<>>)
       chg      == IF progress THEN r.h ELSE st.chg
       fair     == (IF progress THEN TRUE ELSE st.fair) /\ LineFair(r, st.absent)
       t        == Tags(r)
@@ -154,13 +166,15 @@ JudgeE2E(r) ==
                    /\ Flag(AlphabetPerMember(r), "C13", "AlphabetPerMember", r, t)
                    /\ Flag(NeoShares(r), "C13", "NeoShares", r, t)
                    /\ Flag(OwnAlphabet(r), "DRIFT", "OwnAlphabet", r, t)
-              ELSE /\ Flag(r.why # "error", "C13", "RunsSucceed", r, t)
+              ELSE /\ Flag(r.why # "error", "C13", IF st.lossy THEN "RunsSucceedLossy" ELSE "RunsSucceed", r, t)
                    /\ Flag(~(r.why # "error" /\ r.h - chg >= StagnationBound /\ fair /\ Len(r.obs.notary) < r.n
                              /\ st.absent # {} /\ 0 \notin st.absent /\ 2 * Cardinality(st.absent) < r.n),
                            "C13", "NotaryMajority", r, t)
+                   \* in a run with lossy delivery (a submission acknowledged to the member but never pooled - a fault
+                   \* the quantifier of C13 does not name) the same verdict is reported under its own predicate name
                    /\ Flag(~(r.why # "error" /\ r.h - chg >= StagnationBound /\ fair
                              /\ (st.absent = {} \/ Len(r.obs.notary) = r.n)),
-                           "C13", "Converges", r, t)
+                           "C13", IF st.lossy THEN "ConvergesLossy" ELSE "Converges", r, t)
          ELSE IF r.act = "rerun"
          THEN /\ Flag(r.done, "C13", "RerunSucceeds", r, t)
               /\ Flag(\A i \in 1..Len(r.mem) : Zero4(r.mem[i].d4), "C13", "Idempotent", r, t)
@@ -169,7 +183,7 @@ JudgeE2E(r) ==
       /\ st' = [st EXCEPT !.abs = Abs(r), !.chg = chg, !.fair = fair, !.bad0 = r.mem[1].badDesignate,
                           !.endabs = IF r.act = "end" THEN Abs(r) ELSE st.endabs]
 
-NoSt == [kind |-> "helpers", cmtIsVal |-> FALSE, abs |-> <<>>, chg |-> 0, fair |-> TRUE, absent |-> {}, bad0 |-> 0, endabs |-> <<>>]
+NoSt == [kind |-> "helpers", lossy |-> FALSE, cmtIsVal |-> FALSE, abs |-> <<>>, chg |-> 0, fair |-> TRUE, absent |-> {}, bad0 |-> 0, endabs |-> <<>>]
 
 TraceInit == l = 0 /\ st = NoSt
 
@@ -179,7 +193,7 @@ TraceNext ==
   /\ LET r == Trace[l + 1]
      IN  IF r.act = "reset"
          THEN st' = IF r.kind = "e2e"
-                    THEN [kind |-> "e2e", cmtIsVal |-> r.cmtIsVal, abs |-> Abs(r), chg |-> 0, fair |-> TRUE,
+                    THEN [kind |-> "e2e", lossy |-> (\E i \in 1..Len(r.plan) : r.plan[i].losses # <<>>), cmtIsVal |-> r.cmtIsVal, abs |-> Abs(r), chg |-> 0, fair |-> TRUE,
                           absent |-> {i \in 0..(r.n - 1) : r.plan[i + 1].afterNotary}, bad0 |-> 0, endabs |-> <<>>]
                     ELSE NoSt
          ELSE IF st.kind = "e2e" THEN JudgeE2E(r) ELSE JudgeHelper(r) /\ st' = st
